@@ -164,8 +164,12 @@ func (w *World) kindRun(fn *ssa.Function, k int64, side string) *kindRunResult {
 			}
 			sc := px.calleeOf(c, fr, st) // static, or through a function value the path knows
 			if sc != nil && !w.inPkg(sc) && len(c.Call.Args) > 0 {
-				if _, seen := res.libCalls[c]; !seen {
-					res.libCalls[c] = px.term(c.Call.Args[0], fr, st).key
+				// every distinct first-argument term the site is executed with (bounded)
+				k := px.term(c.Call.Args[0], fr, st).key
+				if prev, seen := res.libCalls[c]; !seen {
+					res.libCalls[c] = k
+				} else if !strings.Contains(prev, k) && len(prev) < 4000 {
+					res.libCalls[c] = prev + " | " + k
 				}
 			}
 			label, isB := "", false
